@@ -28,6 +28,22 @@ Definition data_of (d : data_spec) : list N :=
 
 Inductive sop : Type := SA (len : N) | SC (id dest : N).
 
+(* steps on the REAL ScryptoRuntime (layer C): direct allocate_buffer / buffer_consume, a hash host
+   function on memory[ptr..ptr+len) through wasmi whose returned i64 the module stores at `scratch`
+   (`result` = what the runtime computes from the bytes read), the host function buffer_consume *)
+Inductive rstep : Type :=
+| RAlloc (d : data_spec)
+| RConsume (id : N)
+| RHash (ptr len scratch : N) (result : list N)
+| RHostConsume (id dest : N).
+Inductive rout : Type :=
+| ROAlloc (raw id len : N)      (* the raw i64 and what Buffer::id() / Buffer::len() make of it *)
+| ROData (dg : digest_t)
+| ROOk
+| ROErr (e : err)
+| ROPanic
+| ROOther.
+
 Inductive call : Type :=
 (* a host function reading the (ptr,len) pairs in order; visible = the runtime receives the vectors *)
 | CHost (name : string) (visible : bool) (pages seed : N) (pairs : list (N * N)) (o : obs)
@@ -47,7 +63,10 @@ Inductive call : Type :=
    with the argument buffer (`args` bytes, id 0) live; SA = a host call allocating a buffer of `len`
    bytes, SC = buffer_consume(id, dest) into a memory of `pages` pages; the observation is the first
    error (a host error traps the frame) or success *)
-| CBufScript (max pages args : N) (ops : list sop) (o : obs).
+| CBufScript (max pages args : N) (ops : list sop) (o : obs)
+(* layer C: a script of steps on a fresh real ScryptoRuntime with buffer limit `max` and a memory of
+   `pages` pages filled with the pattern; `outs` are the observed outputs step by step *)
+| CReal (max pages seed : N) (steps : list rstep) (outs : list rout).
 
 Definition nseq (n : N) : list N := map N.of_nat (seq 0 (N.to_nat n)).
 Definition prior_ops (prior : N) : list bop := flat_map (fun k => [BAlloc []; BConsume k]) (nseq prior).
@@ -117,6 +136,67 @@ Fixpoint run_script (st : bufs) (m : mem) (ops : list sop) : obs :=
     end
   end.
 
+Definition le8 (v : N) : list N := map (fun k => (v / 256 ^ k) mod 256) [0; 1; 2; 3; 4; 5; 6; 7].
+Definition rout_of_alloc (r : res (N * N)) : rout :=
+  match r with
+  | Ok (id, len) => ROAlloc (buffer_pack id len) id len
+  | Err e => ROErr e
+  | Panic => ROPanic
+  end.
+Fixpoint run_real (st : bufs) (m : mem) (steps : list rstep) : list rout * mem :=
+  match steps with
+  | [] => ([], m)
+  | RAlloc d :: t =>
+    let '(r, st') := allocate_buffer st (data_of d) in
+    let '(outs, m') := run_real st' m t in (rout_of_alloc r :: outs, m')
+  | RConsume id :: t =>
+    let '(r, st') := buffer_consume st id in
+    let '(outs, m') := run_real st' m t in
+    ((match r with Ok d => ROData (digest d) | Err e => ROErr e | Panic => ROPanic end) :: outs, m')
+  | RHash p l scratch result :: t =>
+    let '(r, st') := host_call st m [(p, l)] (fun _ => result) in
+    match r with
+    | Ok v =>
+      (* the module stores the returned i64 at `scratch` (a WASM store, little endian) *)
+      let m1 := mem_store m scratch (le8 v) in
+      let '(outs, m') := run_real st' m1 t in
+      (ROAlloc v (buffer_id v) (buffer_len v) :: outs, m')
+    | Err e => let '(outs, m') := run_real st' m t in (ROErr e :: outs, m')
+    | Panic => ([ROPanic], m)
+    end
+  | RHostConsume id dest :: t =>
+    let '(r, st', m1) := consume_buffer st m id dest in
+    let '(outs, m') := run_real st' m1 t in
+    ((match r with Ok _ => ROOk | Err e => ROErr e | Panic => ROPanic end) :: outs, m')
+  end.
+Definition rout_eqb (a b : rout) : bool :=
+  match a, b with
+  | ROAlloc r i l, ROAlloc r' i' l' => (r =? r') && (i =? i') && (l =? l')
+  | ROData x, ROData y => digest_eqb x y
+  | ROOk, ROOk => true
+  | ROErr x, ROErr y => err_eqb x y
+  | ROPanic, ROPanic => true
+  | _, _ => false
+  end.
+Fixpoint routs_eqb (a b : list rout) : bool :=
+  match a, b with
+  | [], [] => true
+  | x :: a', y :: b' => rout_eqb x y && routs_eqb a' b'
+  | _, _ => false
+  end.
+(* the table part of a script also against the abstract specification (theorem C47_buffer_table_refines_spec) *)
+Definition table_ops (steps : list rstep) : list bop :=
+  flat_map (fun s => match s with RAlloc d => [BAlloc (data_of d)] | RConsume id => [BConsume id] | _ => [] end) steps.
+Definition only_table (steps : list rstep) : bool :=
+  forallb (fun s => match s with RAlloc _ | RConsume _ => true | _ => false end) steps.
+Definition rout_of_bout (b : bout) : rout :=
+  match b with
+  | OAlloc id len => ROAlloc (buffer_pack id len) id len
+  | OData d => ROData (digest d)
+  | OErr e => ROErr e
+  | OPanic => ROPanic
+  end.
+
 (* model outcome and memory after the call *)
 Definition run_call (c : call) : obs * mem :=
   match c with
@@ -143,11 +223,18 @@ Definition run_call (c : call) : obs * mem :=
     end
   | CBufScript max pages args ops _ =>
     (run_script (bufs_new max) (pat_mem pages 0) (SA args :: ops), pat_mem 0 0)
+  | CReal max pages seed steps outs =>
+    let '(mo, m') := run_real (bufs_new max) (pat_mem pages seed) steps in
+    ((if routs_eqb mo outs
+         && (negb (only_table steps)
+             || routs_eqb (map rout_of_bout (spec_run (spec_new max) (table_ops steps))) outs)
+      then ObsOk [] else ObsOther), m')
   end.
 Definition observed (c : call) : obs :=
   match c with
   | CHost _ _ _ _ _ o => o | CReturn _ _ _ o => o | CWrite _ _ _ _ _ _ _ o => o
   | CBufTx _ _ _ o => o | CBufPtr _ _ _ _ _ o => o | CBufScript _ _ _ _ o => o
+  | CReal _ _ _ _ _ => ObsOk []
   end.
 
 Definition check (c : case) : bool :=
